@@ -45,7 +45,7 @@ def run(ctx):
     except TW.Refuse as e:
         ctx.obligation("translate_wfsa", False, f"translator refused: {e}")
         tr_ok = False
-    ok, out = ctx.build(["proofs/WfsaProofs.vo", "proofs/LehmannProof.vo", "proofs/EpsRemove.vo", "proofs/GenWfsaBridge.vo", "proofs/EpsEquations.vo", "proofs/ClosureExtra.vo", "model/EpsSpec.vo"]) if tr_ok else (False, "translator refused")
+    ok, out = ctx.build(["proofs/WfsaProofs.vo", "proofs/LehmannProof.vo", "proofs/EpsRemove.vo", "proofs/GenWfsaBridge.vo", "proofs/EpsEquations.vo", "proofs/ClosureExtra.vo", "proofs/TotalWeightProofs.vo", "model/EpsSpec.vo"]) if tr_ok else (False, "translator refused")
     if ok:
         ctx.prove("props/C11.v")
     else:
